@@ -1,4 +1,6 @@
 import Pkgcore.Model.C01
+import Pkgcore.Spec.C02
+import Pkgcore.Model.C04
 /-!
 # C07 model — `__eq__`, `__hash__` and `match` of the restriction classes, as written (after the `fix:` commits)
 
@@ -7,17 +9,21 @@ One inductive `Restr` has a constructor per class (or family of classes sharing 
 * `values.py`: `StrExactMatch`, `StrGlobMatch`, `StrRegex` (`_HashedGenericEquality`: `_hash` is the first compared
   attribute and only exists once the object has been hashed — field `hashed`), `ContainmentMatch` (sets `_hash` in
   `__init__`), `FlatteningRestriction`, `FunctionRestriction`, `StrConversion`;
-* `ebuild/restricts.py`: `_VersionMatch` (`_convert_ops`, revision compared as `Revision`), `_UseDepDefaultContainment`;
+* `ebuild/restricts.py`: `_VersionMatch` (`_convert_ops`, revision compared as `Revision`), `_VersionGlobMatch`
+  (`cpv.ver_glob_match`, taken from the C04 model), `_UseDepDefaultContainment` (`match_all = not negate`);
 * `packages.py`: `PackageRestriction` and its subclasses (class tag `cls`; `VersionMatch.match` bypasses the attribute
   and the wrapper's `negate`), `PackageRestrictionMulti`, `Conditional`;
 * `boolean.py`: the four node classes and `KeyedAndRestriction` (`__attr_comparison__ = (__class__, negate, type, restrictions)`);
-* `ebuild/atom.py`: atoms (`GenericEquality` over the parsed attributes, rendered to strings by the harness);
+* `ebuild/atom.py`: atoms — `__eq__` is `__cmp__(other) == 0` and `_hash` the canonical tuple, both taken from the C02
+  model (`C02.Atom`, `C02.atomEq`, `C02.atomHashKey`: version compared by PMS value, `!`/`!!`, slot, sub-slot, slot
+  operator, sorted USE deps and repository compared);
 * `ebuild/conditionals.py`: `DepSet` (`set(self.restrictions) == set(other.restrictions)`);
 * objects with identity equality (`AlwaysBool`, `Negate`, `AnyMatch`, `EqualityMatch`): `obj oid`.
 
 `eqv` is Python's `==` on two such objects, `hashKey` the value whose (tuple / frozenset / str / int) hash `__hash__`
 returns, `mtch` is `match`.  Primitives that are not modelled (case folding, `re`, user functions, `str()`,
-`iflatten_instance`, the match of identity objects and of atoms) are fields of `Env`: the theorems hold for every
+`iflatten_instance`, the match of identity objects) are fields of `Env`, and so is the match of atoms *as a function of
+their canonical form* (`C02.Spec.atomCanon`: `atom.match` itself is C04's subject): the theorems hold for every
 environment.  Boolean nodes are evaluated by their propositional reading, which C06 (`match_eq_eval`) proves equal to
 the loops of `boolean.py`.
 -/
@@ -51,16 +57,18 @@ inductive Restr where
   | func (fid : Nat) (negate : Bool)
   | strConv (child : Restr)
   | version (vals : List Int) (droprev negate : Bool) (ver : Ver) (rev : Rev)
+  | verGlob (ver : Ver) (rev : Rev)
   | obj (oid : Nat)
   | pkgRestr (cls : Nat) (multi : Bool) (attrs : List (List Str)) (negate : Bool) (child : Restr)
   | conditional (attr : List Str) (negate : Bool) (child : Restr) (payload : List Restr)
   | bool (kind : Kind) (ntype : Nat) (negate : Bool) (cs : List Restr)
-  | atom (key : List Str) (strong : Bool)
+  | atom (a : Pkgcore.C02.Atom)
   | depset (cs : List Restr)
   deriving Inhabited
 
-/-- class tag of `restricts.VersionMatch` (its `match` is `self.restriction.match(pkg)`) -/
+/-- class tags of `restricts.VersionMatch` / `restricts.VersionGlobMatch` (their `match` is `self.restriction.match(pkg)`) -/
 def clsVersionMatch : Nat := 1
+def clsVersionGlobMatch : Nat := 11
 
 /-! ## equality -/
 
@@ -90,11 +98,12 @@ def eqv : Restr → Restr → Bool
   | .version vals d n ver rev, .version vals' d' n' ver' rev' =>
     d == d' && ver == ver' && revInt rev == revInt rev' && rev.isNone == rev'.isNone
       && convertOps n vals == convertOps n' vals'
+  | .verGlob ver rev, .verGlob ver' rev' => ver == ver' && revInt rev == revInt rev'      -- GenericEquality on (ver, rev)
   | .obj i, .obj j => i == j
   | .pkgRestr k m ats n c, .pkgRestr k' m' ats' n' c' => k == k' && n == n' && m == m' && ats == ats' && eqv c c'
   | .conditional ats n c p, .conditional ats' n' c' p' => n == n' && ats == ats' && eqv c c' && eqvList p p'
   | .bool k t n cs, .bool k' t' n' cs' => k == k' && n == n' && t == t' && eqvList cs cs'
-  | .atom k _, .atom k' _ => k == k'
+  | .atom a, .atom b => Pkgcore.C02.atomEq a b == some true      -- `self.__cmp__(other) == 0`
   | .depset cs, .depset cs' => subsetL cs cs' && cs'.all (fun y => existsL cs y)
   | _, _ => false
 termination_by structural a => a
@@ -130,24 +139,43 @@ inductive HK where
   | v (x : Ver)             -- the version string (lexing is injective on valid versions)
   deriving Inhabited
 
+def hkOpt {α : Type} (f : α → HK) : Option α → HK
+  | none => .tup []
+  | some x => .tup [f x]
+
+/-- the tuple `cpv.ver_hash_key` returns -/
+def hkVKey (k : Pkgcore.C02.VKey) : HK :=
+  .tup [.tup (k.nums.map fun c => match c with | .int n => .n n | .str s => .s s),
+        hkOpt (fun c => .s [c]) k.letter,
+        .tup (k.sufs.map fun x => .tup [.s x.1.name.toList, .n x.2]),
+        .n k.rev]
+
+/-- the tuple hashed into `atom._hash` (C02 `atomHashKey`) as a hash key tree -/
+def encAtomKey :
+    Str × Str × Str × Option Pkgcore.C02.VKey × Bool × Bool × Str × Str × Str × Option (List Str) × Option Str → HK
+  | (cat, pkg, op, vk, blocks, strong, slot, subslot, slotOp, use, repo) =>
+    .tup [.s cat, .s pkg, .s op, hkOpt hkVKey vk, .b blocks, .b strong, .s slot, .s subslot, .s slotOp,
+          hkOpt (fun u => .tup (u.map .s)) use, hkOpt .s repo]
+
 mutual
 def hashKey : Restr → HK
   | .strExact e c n _ => .tup [.s e, .b c, .b n]                    -- tuple(attrs of __attr_comparison__ except _hash)
   | .strGlob g p n i _ => .tup [.s g, .b p, .b n, .b i]
   | .strRegex r n i m _ => .tup [.s r, .b n, .b i, .b m]
   | .contain v a n => .tup [.b a, .b n, .fset (v.map .s)]             -- hash((self.all, self.negate, self.vals))
-  | .useDefault _ v n => .tup [.b true, .b n, .fset (v.map .s)]       -- inherited; `all` is always True
+  | .useDefault _ v n => .tup [.b (!n), .b n, .fset (v.map .s)]       -- inherited; `all` is `not negate`
   | .flatten d c n => .tup [.id d, hashKey c, .b n]
   | .func f n => .tup [.id f, .b n]
   | .strConv c => .tup [hashKey c]
   | .version vals d n ver rev =>                                      -- (droprev, ver, int(rev) or 0, _convert_ops(self))
     .tup [.b d, .v ver, .n (revInt rev), .tup ((convertOps n vals).map .n)]
+  | .verGlob ver rev => .tup [.v ver, .n (revInt rev)]               -- (ver, int(rev) or 0)
   | .obj i => .id i
   | .pkgRestr _ _ ats n c => .tup [.b n, .tup (ats.map fun p => .tup (p.map .s)), hashKey c]   -- (negate, attrs, restriction)
   | .conditional ats n c p => .tup [.tup (ats.map .s), .b n, hashKey c, .tup (hashKeys p)]
   | .bool k t n cs => .tup [.id (match k with | .and => 0 | .or => 1 | .one => 2 | .amo => 3 | .keyedAnd => 4),
                             .b n, .n t, .tup (hashKeys cs)]           -- (__class__, negate, type, restrictions)
-  | .atom k _ => .tup (k.map .s)
+  | .atom a => encAtomKey (Pkgcore.C02.atomHashKey a)
   | .depset cs => .fset (hashKeys cs)                                 -- hash(frozenset(self.restrictions))
 def hashKeys : List Restr → List HK
   | [] => []
@@ -156,6 +184,10 @@ end
 
 /-! ## match -/
 
+/-- the canonical form of an atom (C02): what distinguishes atoms, versions by their PMS value -/
+abbrev AtomCanon :=
+  Str × Str × Str × Option Pkgcore.C01.Key × Bool × Bool × Bool × Str × Str × Str × Option (List Str) × Option Str
+
 /-- the primitives the model does not look into -/
 structure Env where
   lower : Str → Str
@@ -163,7 +195,7 @@ structure Env where
   toStr : Value → Str                          -- `str(value)`
   fn : Nat → Value → Bool                      -- the callables of FunctionRestriction
   objMatch : Nat → Value → Bool                -- match of identity-equality objects
-  atomMatch : List Str → Value → Bool          -- atom.match as a function of the compared attributes
+  atomMatch : AtomCanon → Value → Bool         -- atom.match as a function of the atom's canonical form
   flat : Nat → Value → Value                   -- iflatten_instance(val, dont_iter)
 
 def isInfix (a b : Str) : Bool := (List.range (b.length + 1)).any fun i => (b.drop i).take a.length == a
@@ -198,11 +230,11 @@ def mtch (env : Env) : Restr → Value → Bool
   | .useDefault m v n, x =>
     match x with
     | .tuple [.strs iuse, .strs use] =>
-      if v.all (fun f => iuse.contains f) then containMatch v true n (.strs use)
+      if v.all (fun f => iuse.contains f) then containMatch v (!n) n (.strs use)
       else if m == n then false
       else
         let reduced := v.filter fun f => iuse.contains f
-        if reduced.isEmpty then true else containMatch reduced true n (.strs use)
+        if reduced.isEmpty then true else containMatch reduced (!n) n (.strs use)
     | _ => false
   | .flatten d c n, x => mtch env c (env.flat d x) != n
   | .func f n, x => env.fn f x != n
@@ -211,9 +243,13 @@ def mtch (env : Env) : Restr → Value → Bool
     match x with
     | .pkg _ (some (pv, pr)) => Pkgcore.C01.versionMatch vals d n ver rev pv (some pr)
     | _ => false                                                    -- pkg.version is None
+  | .verGlob ver rev, x =>
+    match x with
+    | .pkg _ (some (pv, pr)) => Pkgcore.C04.verGlobMatch ver (rev.getD []) pv pr   -- cpv.ver_glob_match(ver, rev, …)
+    | _ => false                                                    -- pkg.version is None
   | .obj i, x => env.objMatch i x
   | .pkgRestr k multi ats n c, x =>
-    if k == clsVersionMatch then mtch env c x                       -- VersionMatch.match: self.restriction.match(pkg)
+    if k == clsVersionMatch || k == clsVersionGlobMatch then mtch env c x   -- (Version|VersionGlob)Match.match: self.restriction.match(pkg)
     else if multi then
       match pullAll ats x with
       | none => n                                                   -- sentinel: return self.negate
@@ -234,7 +270,7 @@ def mtch (env : Env) : Restr → Value → Bool
     | .or => anyM env cs x != n
     | .one => (cs.isEmpty || countM env cs x == 1) != n
     | .amo => decide (countM env cs x ≤ 1) != n
-  | .atom k _, x => env.atomMatch k x
+  | .atom a, x => env.atomMatch (Pkgcore.C02.Spec.atomCanon a) x
   | .depset cs, x => allM env cs x        -- a DepSet has no `match`; its meaning is the conjunction of its members
 def allM (env : Env) : List Restr → Value → Bool
   | [], _ => true
